@@ -53,20 +53,26 @@ func New[H Hash](options ...func(config *Config[H])) (*DBFT[H], error) {
 func (d *DBFT[H]) addTransaction(tx Transaction[H]) {
 	d.Transactions[tx.Hash()] = tx
 	if d.hasAllTransactions() {
-		if d.IsPrimary() || d.Context.WatchOnly() {
-			return
-		}
-
-		if !d.createAndCheckBlock() {
-			return
-		}
-
-		d.verifyPreCommitPayloadsAgainstPreBlock()
-
-		d.extendTimer(2)
-		d.sendPrepareResponse()
-		d.checkPrepare()
+		d.onAllTransactions()
 	}
+}
+
+// onAllTransactions answers the proposal when the last of its missing
+// transactions has been obtained.
+func (d *DBFT[H]) onAllTransactions() {
+	if d.IsPrimary() || d.Context.WatchOnly() {
+		return
+	}
+
+	if !d.createAndCheckBlock() {
+		return
+	}
+
+	d.verifyPreCommitPayloadsAgainstPreBlock()
+
+	d.extendTimer(2)
+	d.sendPrepareResponse()
+	d.checkPrepare()
 }
 
 // Start initializes dBFT instance and starts the protocol if node is primary.
